@@ -199,6 +199,7 @@ impl CertificateRevocationListParams {
 		issuer: &Certificate,
 		issuer_key: &KeyPair,
 	) -> Result<CertificateRevocationList, Error> {
+		issuer.params.distinguished_name.check_oids()?;
 		if let Some(issuing_distribution_point) = &self.issuing_distribution_point {
 			issuing_distribution_point.distribution_point.check_uris()?;
 		}
